@@ -361,6 +361,11 @@ fn rust_join_hook(left: blake3::verif::JoinHalf<'_>, right: blake3::verif::JoinH
     run_split(left, right);
 }
 
+/// coordinator while shrinking: a run that exceeds sched::WAIT_LIMIT_S is abandoned instead of ending the process
+pub static SOFT_TIMEOUT: std::sync::atomic::AtomicBool = std::sync::atomic::AtomicBool::new(false);
+/// an abandoned run happened in this process (threads stuck inside the library remain)
+pub static ABANDONED: std::sync::atomic::AtomicBool = std::sync::atomic::AtomicBool::new(false);
+
 pub fn install_hooks() {
     blake3::verif::set_yield_hook(Some(sched::hook_yield));
     blake3::verif::set_join_hook(Some(rust_join_hook));
@@ -380,6 +385,7 @@ pub fn exec(plan: &Plan) -> ExecOut {
     let data: Vec<Vec<u8>> = plan.data.iter().map(|d| d.materialize(plan.cfg.secret_xor)).collect();
     let n = plan.tasks.len();
     crate::tpool::FRESH.store(plan.cfg.fresh_threads, Ordering::Relaxed);
+    crate::ops::ensure_global_pool();
     if !FIRST_USE.load(Ordering::Relaxed) {
         crate::guard::reset_arena();
         // every run starts from the same C dispatcher state
@@ -416,6 +422,15 @@ pub fn exec(plan: &Plan) -> ExecOut {
         }
         sched.start();
         ok = sched.wait_all_done();
+        if !ok && SOFT_TIMEOUT.load(Ordering::Relaxed) {
+            // shrinking in the coordinator: this candidate blocks inside the library (the shards' watchdog reports
+            // such a run as a hang); abandon it, its threads stay stuck, later runs get new threads
+            ABANDONED.store(true, Ordering::Relaxed);
+            crate::tpool::POISONED.store(true, Ordering::Relaxed);
+            // the handles' Drop would wait for the stuck tasks
+            std::mem::forget(std::mem::take(&mut handles));
+            return finish(shared, false);
+        }
         if !ok {
             // cannot unblock stuck threads safely: report and abort the process
             eprintln!("HARNESS: scheduler timeout, plan seed {}", shared.plan.seed);
